@@ -1219,6 +1219,24 @@ func countingPhiBound(phi *ssa.Phi) ssa.Value {
 	return cmp.Y
 }
 
+// LoopBoundOf: for an induction value (see IsRangeIndex), the bound B of `i < B`.
+func LoopBoundOf(idx ssa.Value) ssa.Value {
+	switch x := idx.(type) {
+	case *ssa.BinOp:
+		if !IsRangeIndex(x) {
+			return nil
+		}
+		for _, r := range *x.Referrers() {
+			if cmp, ok := r.(*ssa.BinOp); ok && cmp.Op == token.LSS && cmp.X == idx {
+				return cmp.Y
+			}
+		}
+	case *ssa.Phi:
+		return countingPhiBound(x)
+	}
+	return nil
+}
+
 // LoopSliceOf: for an induction value (see IsRangeIndex) whose bound is len(S), returns S.
 func LoopSliceOf(idx ssa.Value) ssa.Value {
 	var bound ssa.Value
